@@ -21,11 +21,13 @@ Range(f) == {f[x] : x \in DOMAIN f}
 Verdict(r) ==
   {<<"Terminates", i, r.runs[i].label>> : i \in {j \in DOMAIN r.runs : r.runs[j].outcome = "timeout"}}
   \cup {<<"Outcome", i, r.runs[i].outcome, r.runs[i].label>> : i \in {j \in DOMAIN r.runs : r.runs[j].outcome \notin {"ok", "timeout"}}}
-  \cup {<<"Deterministic", i, r.runs[i].label>> :
+  \* (records of the wide-directory scenario are judged for termination and outcome only)
+  \cup (IF "wide" \in DOMAIN r THEN {} ELSE
+  {<<"Deterministic", i, r.runs[i].label>> :
           i \in {j \in DOMAIN r.runs : r.runs[j].outcome = "ok" /\ r.runs[1].outcome = "ok"
                     /\ (r.runs[j].tree # r.runs[1].tree \/ Range(r.runs[j].needs) # Range(r.runs[1].needs))}}
   \cup {<<"NoOrphan", i, r.runs[i].orphans, r.runs[i].label>> : i \in {j \in DOMAIN r.runs : r.runs[j].outcome = "ok" /\ r.runs[j].orphans > 0}}
-  \cup {<<"Readable", i, r.runs[i].label>> : i \in {j \in DOMAIN r.runs : r.runs[j].outcome = "ok" /\ ~(r.runs[j].readable /\ r.runs[j].clean)}}
+  \cup {<<"Readable", i, r.runs[i].label>> : i \in {j \in DOMAIN r.runs : r.runs[j].outcome = "ok" /\ ~(r.runs[j].readable /\ r.runs[j].clean)}})
 
 Conforms == Verdict(Rec[l]) = {} \/ PrintT(<<"NONCONF", l, Rec[l].id, Verdict(Rec[l])>>)
 AllConsumed == TLCGet("stats").diameter = Len(Rec)
